@@ -226,13 +226,17 @@ func randFieldText(r *rand.Rand) (string, string) {
 	case 0, 1, 2:
 		return randWildText(r), ""
 	case 3, 4, 5:
-		return randCallText(r, randWildText(r), r.Intn(3)), alias
+		w := randWildText(r)
+		if w == "*::tag" && r.Intn(4) != 0 { // an error: keep it rare
+			w = "*"
+		}
+		return randCallText(r, w, r.Intn(3)), alias
 	case 6, 7:
 		return randCallText(r, randRefText(r), r.Intn(2)), alias
 	case 8:
 		return randRefText(r) + pick(r, []string{" + ", " * ", " - ", " / "}) + randRefText(r), alias
 	case 9:
-		switch r.Intn(5) {
+		switch r.Intn(8) {
 		case 0:
 			return pick(r, []string{"*", "*::field", "*::tag"}) + pick(r, []string{" + 1", " * value", " - 2.5"}), ""
 		case 1:
@@ -241,8 +245,10 @@ func randFieldText(r *rand.Rand) (string, string) {
 			return "(" + pick(r, []string{"*", "*::field", "*::tag"}) + ")", ""
 		case 3:
 			return "-" + pick(r, []string{"mean", "f", "max"}) + "(" + randWildText(r) + ")", ""
-		default:
+		case 4:
 			return randRefText(r) + " * (" + randCallText(r, randWildText(r), 0) + " + 2)", alias
+		default:
+			return randRefText(r) + " * (" + randCallText(r, randRefText(r), 0) + " + 2)", alias
 		}
 	case 10:
 		return pick(r, []string{"1", "1.5", "'s'", "true", "DISTINCT " + qid(fColNames[r.Intn(len(fColNames))]), "(" + randRefText(r) + ")", "10s", "18446744073709551615"}), alias
@@ -299,10 +305,14 @@ func randFStmt(r *rand.Rand, depth int) *fStmt {
 		ns += 1 + r.Intn(2)
 	}
 	for i := 0; i < ns; i++ {
-		if depth > 0 && r.Intn(3) == 0 {
+		if depth > 0 && (i == 0 || r.Intn(3) == 0) {
 			s.srcs = append(s.srcs, fSrc{sub: randFStmt(r, depth-1)})
 		} else {
-			s.srcs = append(s.srcs, fSrc{meas: fMeasNames[r.Intn(len(fMeasNames))]})
+			name := fMeasNames[r.Intn(len(fMeasNames))]
+			if name == "bad" && r.Intn(4) != 0 { // a failing mapper ends most rewrites early: keep it rare
+				name = "cpu"
+			}
+			s.srcs = append(s.srcs, fSrc{meas: name})
 		}
 	}
 	if r.Intn(4) == 0 {
@@ -419,12 +429,12 @@ func genFieldsRewrite(r *rand.Rand, n int, emit func(args ...string)) {
 			c.schema = fieldsBaseSchema()
 		}
 		depth := 0
-		switch r.Intn(8) {
-		case 0, 1:
+		switch r.Intn(10) {
+		case 0, 1, 2:
 			depth = 1
-		case 2:
+		case 3, 4:
 			depth = 2
-		case 3:
+		case 5:
 			depth = 3
 		}
 		c.stmt = randFStmt(r, depth)
